@@ -26,7 +26,10 @@ package acl
 //   * protoPort: "", "*", "*/*" any; tcp|udp restricts the protocol; "/N" one
 //     port, "/A-B" the inclusive range, "/*" any port.
 // Bounds (excluded by construction, counted with st.Excluded when the raw
-// generator proposes them): port 0 in a rule, xn-- labels, IPv4-mapped IPv6.
+// generator proposes them): port 0 in a rule, IPv4-mapped IPv6. Host names with
+// a Punycode (xn--) label are not judged by the reference (it does not decode)
+// but by the relation the statement does fix: any spelling (case, trailing dot)
+// on the used rule set == the lower-case spelling on a fresh rule set.
 
 import (
 	"fmt"
@@ -197,7 +200,7 @@ var v09Doms = []string{
 	"example.com", "notexample.com", "sub.example.com", "a.sub.example.com",
 	"example.com.evil.org", "example.org", "com", "example.co", "xample.com",
 	"my-example.com", "example.net", "localhost",
-	"xn--bcher-kva.example.com", // out of bounds: replaced + counted
+	"xn--bcher-kva.example.com", // Punycode label: lookups of such names are checked for spelling/history invariance only
 }
 
 func v09A(s string) netip.Addr { return netip.MustParseAddr(s) }
@@ -225,14 +228,84 @@ type v09Ctx struct {
 func (c *v09Ctx) n(lo, hi int, label string) int { return rapid.IntRange(lo, hi).Draw(c.t, label) }
 
 func (c *v09Ctx) dom(label string) string {
-	d := v09Doms[c.n(0, len(v09Doms)-1, label)]
-	for _, l := range strings.Split(d, ".") {
+	return v09Doms[c.n(0, len(v09Doms)-1, label)]
+}
+
+// v09HasACE: does the host name contain a Punycode ("xn--", any case) label? Such
+// names are decoded by the matcher; the statement fixes only that their spelling
+// (case, trailing dot) and the lookup history do not matter, so they are checked
+// by that relation (v09CheckOne) and not against the reference evaluator.
+func v09HasACE(name string) bool {
+	for _, l := range strings.Split(v09Lower(name), ".") {
 		if strings.HasPrefix(l, "xn--") {
-			c.st.Excluded("xn-- label (IDN: pattern and host are normalised differently)")
-			return "example.com"
+			return true
 		}
 	}
-	return d
+	return false
+}
+
+// v09Witness builds, without any random draw, a lookup that rule r matches.
+func v09Witness(r *v09Rule) v09Query {
+	q := v09Query{Proto: 1, Port: 80}
+	if r.Proto == 2 {
+		q.Proto, q.Op = 2, 1
+	}
+	if !r.AnyPort {
+		q.Port = r.Lo
+	}
+	switch r.Kind {
+	case v09KExact:
+		q.Name = r.Dom
+	case v09KSuffix:
+		q.Name = "w." + r.Dom
+	case v09KWild:
+		q.Name = strings.Trim(strings.ReplaceAll(r.Dom, "*", "w"), ".")
+	case v09KIP, v09KCIDR:
+		if r.Addr.Is4() {
+			q.V4 = r.Addr
+		} else {
+			q.V6 = r.Addr
+		}
+	default:
+		q.Name = "witness.test"
+	}
+	q.NilInfo = false
+	return q
+}
+
+// v09LongLine makes one line of the file longer than 64 KiB without changing
+// its meaning: how 0 a comment line in front of it, 1 blanks inside the
+// parentheses, 2 trailing blanks, 3 a trailing comment.
+func v09LongLine(file string, at, how int) string {
+	lines := strings.Split(file, "\n")
+	if len(lines) == 0 {
+		return file
+	}
+	at %= len(lines)
+	const n = 66000
+	switch l := lines[at]; {
+	case how == 0 || strings.TrimSpace(l) == "":
+		lines[at] = "# " + strings.Repeat("long comment ", n/13) + "\n" + l
+	case how == 1 && strings.Contains(l, "(") && !strings.HasPrefix(strings.TrimSpace(l), "#"):
+		i := strings.Index(l, "(")
+		lines[at] = l[:i+1] + strings.Repeat(" \t", n/2) + l[i+1:]
+	case how == 2:
+		lines[at] = l + strings.Repeat(" ", n)
+	default:
+		lines[at] = l + " #" + strings.Repeat("x", n)
+	}
+	return strings.Join(lines, "\n")
+}
+
+// v09Abbrev shortens over-long lines for messages.
+func v09Abbrev(text string) string {
+	lines := strings.Split(text, "\n")
+	for i, l := range lines {
+		if len(l) > 400 {
+			lines[i] = fmt.Sprintf("%s...[line of %d bytes]...%s", l[:80], len(l), l[len(l)-80:])
+		}
+	}
+	return strings.Join(lines, "\n")
 }
 
 func (c *v09Ctx) v4(label string) netip.Addr { return v09V4s[c.n(0, len(v09V4s)-1, label)] }
@@ -955,7 +1028,7 @@ func v09Analyse(qs []v09Query, capN int) v09Shape {
 
 func v09RenderCase(file string, capN int, qs []v09Query, upto int) string {
 	var sb strings.Builder
-	fmt.Fprintf(&sb, "cache=%d rules:\n%s", capN, file)
+	fmt.Fprintf(&sb, "cache=%d rules:\n%s", capN, v09Abbrev(file))
 	sb.WriteString("queries:")
 	start := 0
 	if upto > 40 {
